@@ -32,7 +32,7 @@ def run(ctx):
     if not f1:
         binding_selftest(ctx, "UdpRef_Trace", "UdpRef_Trace.cfg", t1, U.mutate_counts)
     ctx.coverage.update({
-        "model_edges_covered": gstats["model_edges"],
+        "model_edges": gstats["model_edges"], "model_edges_covered": gstats["covered"],
         "edge_cover_ops": gstats["ops"],
         "random_runs": nruns, "random_ops": nruns * nops,
         "rule": "every transition of the generation model (UdpSwarm_Gen.cfg) is executed on the real "
